@@ -210,6 +210,49 @@ pub fn gen(rng: &mut Rng, thorough: bool, out: &mut Sink) {
             out.count(&format!("ctor_{}", ctor));
         }
     }
+    // well-formed data of one format through the per-format constructors of the OTHER formats: the binding must
+    // answer what the core's loader of that name answers (an error, or the same definition)
+    {
+        let mut seen: Vec<String> = Vec::new();
+        for (name, path) in shipped_models() {
+            let fmt = name.split(':').next().unwrap_or("").to_string();
+            let size = std::fs::metadata(&path).map(|m| m.len()).unwrap_or(0);
+            if seen.contains(&fmt) || size == 0 || size > 6_000_000 {
+                continue;
+            }
+            let Ok(data) = std::fs::read(&path) else { continue };
+            seen.push(fmt.clone());
+            for other in ["sentencepiece", "tokenizers", "tiktoken", "tekken"] {
+                if other == fmt {
+                    continue;
+                }
+                let core = guarded(|| {
+                    let d = match other {
+                        "sentencepiece" => Definition::from_sentencepiece_slice(&data),
+                        "tokenizers" => Definition::from_tokenizers_slice(&data),
+                        "tiktoken" => Definition::from_tiktoken_slice(&data),
+                        _ => Definition::from_tekken_slice(&data),
+                    };
+                    d.ok().and_then(|d| Kitoken::from_definition(d).ok()).map(|t| format!("OK {:016x}", crate::c19::fnv(&t.to_vec())))
+                });
+                let want = match core {
+                    Some(Some(ok)) => ok,
+                    Some(None) => "LOADERR".to_string(),
+                    None => "PANIC".to_string(),
+                };
+                for ctor in [format!("from_{}", other), format!("from_{}_file", other)] {
+                    requests.push(json!({"ctor": ctor, "path": path.to_string_lossy(), "ops": [{"op": "to_bytes"}]}));
+                    plans.push((
+                        format!("cross!{}", name),
+                        ctor.clone(),
+                        vec![Planned { line_prefix: String::new(), core: want.clone(), to_model: None }],
+                        Vec::new(),
+                    ));
+                    out.count("cross_format_constructor_calls");
+                }
+            }
+        }
+    }
     // malformed files through the binding: errors, not crashes
     let junk = work.join("py_junk.bin");
     std::fs::write(&junk, b"kitoken\x00\x01\xff\xff\xff").unwrap();
@@ -243,6 +286,20 @@ pub fn gen(rng: &mut Rng, thorough: bool, out: &mut Sink) {
     for ((name, ctor, planned, def_lines), ans) in plans.iter().zip(answers.iter()) {
         let mut lines = def_lines.clone();
         let load = ans["load"].as_str().unwrap_or("?");
+        if name.starts_with("cross!") {
+            let want = &planned[0].core;
+            let got = if load == "OK" {
+                ans["ops"].as_array().and_then(|a| a.first()).and_then(|v| v.as_str()).unwrap_or("?").to_string()
+            } else if load.starts_with("ERR") {
+                "LOADERR".to_string()
+            } else {
+                load.to_string()
+            };
+            lines.push(format!("IMPLEQ py-cross-format {} {} :: {}", &name[6..], ctor, if &got == want { "OK".to_string() } else { format!("DIFF core=[{}] binding=[{}]", want, got) }));
+            out.count("binding_calls_compared");
+            out.group(lines);
+            continue;
+        }
         if planned.is_empty() {
             // malformed file: any ordinary exception is fine, a panic is not; empty Tiktoken data loads
             let verdict = if load.starts_with("PANIC") { format!("DIFF binding=[{}]", load) } else { "OK".to_string() };
